@@ -65,6 +65,13 @@ func newEvidence(prop, tier string, seed uint64, info *prepInfo) *evidence {
 
 func (e *evidence) addPhase(ph phase, outs []runOut, wall float64) {
 	runs, ops, steps, exhausted := 0, 0, 0, true
+	lastOf := map[int]*Report{} // a worker may have had successors; its last report says whether its share was completed
+	for _, o := range outs {
+		lastOf[o.worker] = o.rep
+	}
+	for _, r := range lastOf {
+		exhausted = exhausted && r.Exhausted
+	}
 	for _, o := range outs {
 		r := o.rep
 		runs += r.Stats.Runs
@@ -73,7 +80,6 @@ func (e *evidence) addPhase(ph phase, outs []runOut, wall float64) {
 		e.switches += r.Stats.Switches
 		e.inconclusive += r.Stats.Inconclusive
 		e.refEvals += r.MemoMisses
-		exhausted = exhausted && r.Exhausted
 		if r.Rule != "" {
 			rules[e.PropertyID] = r.Rule
 		}
